@@ -347,9 +347,33 @@ func startReinit(c *Ctx, A *Cluster, tag string, withJunk, adapt bool, forgedOpt
 			fmt.Sprintf("genredkg id=%d thr=%d parts=%s kept=%s", tok.Tok(re.DKGID), re.Threshold, strings.Join(names, ","), strings.Join(kept, ",")))
 	}
 	if adapt {
+		before := re
 		if re, err = node.GetAdaptedReDKG(re); err != nil {
 			return B, nil, fmt.Errorf("GetAdaptedReDKG failed: %w", err)
 		}
+		// the adaptation against its model (Node/Adapt.v): where the synthetic self-confirmations go,
+		// and the renumbered offsets
+		var sb strings.Builder
+		fmt.Fprintf(&sb, "adapt %d %d", tok.Tok(before.DKGID), len(before.Messages))
+		for _, m := range before.Messages {
+			ev := m.Event
+			if ev == "" {
+				ev = "-"
+			}
+			fmt.Fprintf(&sb, " %s %d %d %d", ev, tok.Tok(m.DkgRoundID), tok.Tok(m.SenderAddr), tok.Tok(m.RecipientAddr))
+		}
+		var obs []string
+		j := 0
+		for _, m := range re.Messages {
+			if j < len(before.Messages) && m.Event == before.Messages[j].Event && m.SenderAddr == before.Messages[j].SenderAddr &&
+				m.DkgRoundID == before.Messages[j].DkgRoundID && bytes.Equal(m.Data, before.Messages[j].Data) && m.RecipientAddr == before.Messages[j].RecipientAddr {
+				j++
+				obs = append(obs, fmt.Sprintf("M%d@%d", j, m.Offset))
+			} else {
+				obs = append(obs, fmt.Sprintf("S%d>%d/%d@%d", tok.Tok(m.SenderAddr), tok.Tok(m.RecipientAddr), tok.Tok(m.DkgRoundID), m.Offset))
+			}
+		}
+		c.Case("adaptation", true, sb.String(), "adapt "+strings.Join(obs, ","))
 	}
 	data, _ := json.Marshal(re)
 	m := storage.Message{DkgRoundID: re.DKGID, Event: "reinit_dkg", Data: data, SenderAddr: B.Users[0]}
